@@ -159,10 +159,14 @@ class Report:
         replay_run = bool(os.environ.get("VERIF_REPLAY_RUN"))
         os.makedirs(os.path.join(VERIF, "evidence"), exist_ok=True)
         path = os.path.join(VERIF, "evidence", self.prop + ".json")
-        if replay_run:
-            path = os.path.join(VERIF, "replays", self.prop + ".last-replay.json")
+        other_tree = os.environ.get("VERIF_REPO") not in (None, "", "/repo")
+        if replay_run or other_tree:
+            # evidence/ only ever describes runs against /repo itself
+            path = os.path.join(VERIF, "replays", self.prop + (".last-replay.json" if replay_run
+                                                               else ".other-tree.json"))
             os.makedirs(os.path.dirname(path), exist_ok=True)
-            min_nontrivial = 0
+            if replay_run:
+                min_nontrivial = 0
         tmp = path + ".tmp%d" % os.getpid()
         with open(tmp, "w") as f:
             json.dump(ev, f, indent=1, sort_keys=True)
